@@ -5,6 +5,7 @@ CONSTANTS Family = "time"
           G = 3
           LTwo = FALSE
           EmitTwoRequests = TRUE
+          Relabel = "none"
 INVARIANTS C48_ResultSatisfiesProperty FunctionalFormAgrees
 PROPERTY Progress
 CHECK_DEADLOCK TRUE
